@@ -22,7 +22,7 @@ TECHNIQUE = "grammar-generated formulas; exhaustive candidate box vs truth-funct
 SIMPLE = S.profile(min_tasks=1, max_tasks=3, horizon=(2, 5), p_no_horizon=0, p_resources=0, task_constraints=(0, 1), optional_rules=(0, 0), resource_constraints=(0, 0),
                    fol=(1, 2), fol_depth=3, optional_constraints=0, p_optional=15, p_release=10, p_due=10, p_shared_operand=25)
 OPTC = S.profile(min_tasks=1, max_tasks=3, horizon=(2, 5), p_no_horizon=0, p_resources=0, task_constraints=(1, 3), optional_rules=(0, 0), resource_constraints=(0, 0),
-                 fol=(0, 1), fol_depth=2, optional_constraints=55, p_optional=10, p_release=10, p_due=10)
+                 fol=(0, 1), fol_depth=2, optional_constraints=55, p_optional=10, p_release=10, p_due=10, p_nested_force_apply=35)
 AUX_LEAVES = S.SIMPLE_LEAVES + ["TasksContiguous", "UnorderedTaskGroup", "OrderedTaskGroup", "ScheduleNTasksInTimeIntervals"]
 AUX = S.profile(min_tasks=2, max_tasks=3, horizon=(2, 5), p_no_horizon=0, p_resources=0, task_constraints=(0, 0), optional_rules=(0, 0), resource_constraints=(0, 0),
                 fol=(1, 1), fol_depth=2, fol_leaves=AUX_LEAVES, optional_constraints=0, p_optional=0, p_release=0, p_due=0)
